@@ -117,7 +117,7 @@ func runC05(c *core.Ctx) {
 						if links < 2 {
 							continue
 						}
-						for _, dk := range []string{"add-path", "drop-path", "digest", "rename-alg", "add-alg", "respell-path", "drop-all", "digest-nonhex"} {
+						for _, dk := range []string{"add-path", "drop-path", "digest", "rename-alg", "add-alg", "respell-path", "drop-all", "digest-nonhex", "null-side"} {
 							for _, side := range []string{"materials", "products"} {
 								for ds := 0; ds < steps; ds++ {
 									if c.Quick() && (ds+steps+th+len(dk)+len(side))%3 != 0 {
@@ -246,12 +246,28 @@ func runC05(c *core.Ctx) {
 					} else {
 						applyDiff(prods, k.DiffKind)
 					}
+					if k.DiffKind == "null-side" {
+						// one functionary's link has no collection at all on this side (written as null)
+						if k.DiffSide == "materials" {
+							mats = nil
+						} else {
+							prods = nil
+						}
+					}
 				}
 				signKey := fn[li].Priv
 				if certFn != nil && s == k.DiffStep && li == k.Links-1 {
 					signKey = certFn.SigningKey()
 				}
-				gen.WriteLink(linkDir, gen.NewLink(fmt.Sprintf("step%d", s), mats, prods), signKey, k.DSSE)
+				lk := gen.NewLink(fmt.Sprintf("step%d", s), mats, prods)
+				if s == k.DiffStep && li == k.Links-1 && k.DiffKind == "null-side" {
+					if k.DiffSide == "materials" {
+						lk.Materials = nil
+					} else {
+						lk.Products = nil
+					}
+				}
+				gen.WriteLink(linkDir, lk, signKey, k.DSSE)
 			}
 			if s == k.DiffStep && certFn == nil && ci%5 == 1 && k.Links >= 2 {
 				// the link file that sorts last is co-signed by a functionary whose own link disagrees
@@ -503,7 +519,7 @@ func c05Reduce(c *core.Ctx, fn []gen.KeyPair) {
 	}
 	ok := int64(0)
 	layout := gen.NewLayout([]intoto.Step{gen.Step("s", 1, nil, nil, nil)}, nil, nil)
-	for _, dk := range []string{"", "add-path", "drop-path", "digest", "rename-alg", "add-alg", "respell-path", "drop-all", "digest-nonhex"} {
+	for _, dk := range []string{"", "add-path", "drop-path", "digest", "rename-alg", "add-alg", "respell-path", "drop-all", "digest-nonhex", "null-side"} {
 		for _, side := range []string{"materials", "products"} {
 			for pos := 0; pos < 3; pos++ {
 				for rep := 0; rep < 6; rep++ {
@@ -521,8 +537,23 @@ func c05Reduce(c *core.Ctx, fn []gen.KeyPair) {
 							} else {
 								applyDiff(prods, dk)
 							}
+							if dk == "null-side" {
+								if side == "materials" {
+									mats = nil
+								} else {
+									prods = nil
+								}
+							}
 						}
-						in["s"][fn[i].Pub.KeyID] = &intoto.Metablock{Signed: gen.NewLink("s", mats, prods)}
+						lk := gen.NewLink("s", mats, prods)
+						if dk == "null-side" && i == pos {
+							if side == "materials" {
+								lk.Materials = nil
+							} else {
+								lk.Products = nil
+							}
+						}
+						in["s"][fn[i].Pub.KeyID] = &intoto.Metablock{Signed: lk}
 					}
 					var err error
 					if c.Guard(id, "ReduceStepsMetadata", dk, func() { _, err = intoto.ReduceStepsMetadata(layout, in) }) {
@@ -545,7 +576,7 @@ func init() {
 	core.Register(&core.Property{
 		ID:    "C05",
 		Level: "exploration",
-		Rule: "chains of 1-4 steps (step i consumes the product of step i-1), thresholds 1-3, threshold..3 validly signed authorized links per step; a single difference {added path, dropped path, one digest nibble, renamed algorithm, added algorithm, the same path spelled ./path, nothing reported at all, a digest that is not hexadecimal} in the materials or products of one counted link at every step position, in a quarter of the legacy cases reported by a functionary who is authorized through a certificate constraint while the others are listed by key, in a fifth with the last-sorting link file co-signed by a functionary whose own link disagrees; all counted links of one step (every position) agreeing on a product that step's rules forbid, with and without a rule-less step in front of it (rejected unless the agreeing step itself has no rules); uncounted links (unsigned / unauthorized / tampered) with arbitrary other artifacts added to otherwise identical directories (metamorphic pairs; the product rules REQUIRE f_i / DISALLOW evil would flip the verdict if they were evaluated on the uncounted link); 2 wrappers x 2 entry points; a third of the chains carry MATCH ... IN vendor rules on the first and last step that consume nothing (the agreed sets and the summary must not change); a third of the chains report one more product (and first-step material) without any digest - an empty hash object - which belongs to the agreed sets and to the summary like every other artifact; a fifth of the agreeing chains carry an inspection named like the first or the last step; every case verified 4 times (the reference link is picked from a map); the summary link is compared with (requested name, agreed materials of the first step, agreed products of the last step); ReduceStepsMetadata called directly with the difference at each of 3 positions x 6 repetitions. one-step chains whose two counted links report the same artifacts with the same digests on different sides (a product of one is a material of the other, all materials of one are products of the other, the boundary shifted by one artifact, sides swapped) must be rejected, the same report twice accepted (6 repetitions, both wrappers and entry points). " +
+		Rule: "chains of 1-4 steps (step i consumes the product of step i-1), thresholds 1-3, threshold..3 validly signed authorized links per step; a single difference {the whole side absent (null) in one link, added path, dropped path, one digest nibble, renamed algorithm, added algorithm, the same path spelled ./path, nothing reported at all, a digest that is not hexadecimal} in the materials or products of one counted link at every step position, in a quarter of the legacy cases reported by a functionary who is authorized through a certificate constraint while the others are listed by key, in a fifth with the last-sorting link file co-signed by a functionary whose own link disagrees; all counted links of one step (every position) agreeing on a product that step's rules forbid, with and without a rule-less step in front of it (rejected unless the agreeing step itself has no rules); uncounted links (unsigned / unauthorized / tampered) with arbitrary other artifacts added to otherwise identical directories (metamorphic pairs; the product rules REQUIRE f_i / DISALLOW evil would flip the verdict if they were evaluated on the uncounted link); 2 wrappers x 2 entry points; a third of the chains carry MATCH ... IN vendor rules on the first and last step that consume nothing (the agreed sets and the summary must not change); a third of the chains report one more product (and first-step material) without any digest - an empty hash object - which belongs to the agreed sets and to the summary like every other artifact; a fifth of the agreeing chains carry an inspection named like the first or the last step; every case verified 4 times (the reference link is picked from a map); the summary link is compared with (requested name, agreed materials of the first step, agreed products of the last step); ReduceStepsMetadata called directly with the difference at each of 3 positions x 6 repetitions. one-step chains whose two counted links report the same artifacts with the same digests on different sides (a product of one is a material of the other, all materials of one are products of the other, the boundary shifted by one artifact, sides swapped) must be rejected, the same report twice accepted (6 repetitions, both wrappers and entry points). " +
 			"non-trivial = >=2 counted links or an uncounted link with other artifacts; distinct = the case tuple",
 		Assumptions: []string{"every validly signed authorized link counts, also beyond the threshold"},
 		Workers:     func(string) int { return 16 },
